@@ -103,6 +103,7 @@ class Profile:
         never=False,            # 'free' | False  (never-ending body; only meaningful if forever or timeout)
         lat=0,                  # 'free' | int     cancellation latency
         sd=0,                   # 'free' | int     shutdown handler duration
+        sd_never=False,         # 'free' | False   the shutdown handler never returns by itself (honours cancellation)
         yield_jobs=None,        # None: pre/post apply to every job | tuple of job names they apply to
         pre=0, post=0,          # max number of zero-time yields before / after the sleep (choice)
         kind="vjob",            # 'vjob' | 'corojob' | 'free'
@@ -204,7 +205,9 @@ def _make_sd(run, node):
         run.log("sd_begin", name)
         try:
             sdd = p["sd"]
-            if not (isinstance(sdd, int) and sdd == 0):
+            if p.get("sd_never"):
+                await run.loop.create_future()
+            elif not (isinstance(sdd, int) and sdd == 0):
                 await asyncio.sleep(sdd)
         except asyncio.CancelledError:
             run.log("sd_cancel", name)
@@ -398,6 +401,7 @@ def _draw(api, prof, run, top):
         p["never"] = _param(api, prof.never, "n_" + n, "bool")
         p["lat"] = _param(api, prof.lat, "lat_" + n, "int")
         p["sd"] = _param(api, prof.sd, "sd_" + n, "int")
+        p["sd_never"] = _param(api, prof.sd_never, "sdn_" + n, "bool")
         ylds = prof.yield_jobs is None or node.name in prof.yield_jobs
         p["pre"] = api.choice("pre_" + n, prof.pre + 1) if prof.pre and ylds else 0
         p["post"] = api.choice("post_" + n, prof.post + 1) if prof.post and ylds else 0
